@@ -1,11 +1,11 @@
 \* vacuity witness: the negated reachability claim must be VIOLATED
 SPECIFICATION Spec
-CONSTANTS Kinds = {"DE"}
+CONSTANTS Kinds = {"NM"}
   NP = 2
-  MaxGen = 2
+  MaxGen = 3
   MaxInst = 3
-  MaxCells = 14
-  Settings <- PSettings
+  MaxCells = 12
+  Settings <- WDiv
   Design = "ok"
-  MaxOps = 4
-INVARIANT NeverUnrestored
+  MaxOps = 3
+INVARIANT NeverStopRestoredContinued
